@@ -262,21 +262,23 @@ def teardown_verifies_all(chk, F, rule, cfg, fn, paths):
 
 
 def into_counter(chk, F, rule, cfg):
-    fn = F.fn('counter::CallCountExpectation::into_counter')
-    for p in symex.Interp(F).run(fn):
-        v = strip(p.outcome[1])
-        d = dict(v[4]) if v[0] == 'agg' else {}
-        ok = strip(d.get('expectation', ('unk', ''))) == ('param', 0, 1) and is_call(d.get('actual_count', ('unk', '')), r'Atomic\w*::new$') and d['actual_count'][2][0] == ('c', 0)
-        chk.ob(rule, 'into_counter keeps the expectation and starts counting at 0', ok, config=cfg, fn=fn, site='into_counter', what='into_counter %s' % show(v)[:120], found=show(v))
+    # new_call_pattern as a whole (the small counter constructors it goes through are part of it): the pattern's counter starts at 0
+    # and carries exactly the builder's expectation
     nc = F.fn('assemble::MockAssembler::new_call_pattern')
-    inline = lambda f, d, n: f.kind in ('fn', 'assoc') and len(f.blocks) < 30 and not re.search(r'into_counter', f.defp)  # noqa: E731
+    inline = lambda f, d, n: f.kind in ('fn', 'assoc') and len(f.blocks) < 30  # noqa: E731
+    n = 0
     for p in symex.Interp(F, inline=inline).run(nc):
         if p.outcome[0] != 'return':
             continue
+        n += 1
         d = dict(strip(p.outcome[1])[4])
         cc = strip(d.get('call_counter', ('unk', '')))
-        ok = is_call(cc, r'CallCountExpectation::into_counter$') and field_path(cc[2][0]) == (('param', 0, 2), ['count_expectation'])
-        chk.ob(rule, 'the pattern\'s counter is built from the builder\'s expectation, unchanged', ok, config=cfg, fn=nc, site='expectation', what='call_counter %s' % show(cc)[:120], found=show(cc)[:200])
+        cd = dict(cc[4]) if cc[0] == 'agg' else {}
+        ac = strip(cd.get('actual_count', ('unk', '')))
+        ex = cd.get('expectation', ('unk', ''))
+        ok = is_call(ac, r'Atomic\w*::new$') and ac[2] and ac[2][0] == ('c', 0) and field_path(ex) == (('param', 0, 2), ['count_expectation'])
+        chk.ob(rule, 'the pattern\'s counter starts at 0 and is built from the builder\'s expectation, unchanged', ok, config=cfg, fn=nc, site='expectation', what='call_counter %s' % show(cc)[:120], found=show(cc)[:200])
+    chk.floor(rule, 'paths of new_call_pattern', n, 2, config=cfg)
     lb = F.fn('counter::CallCountExpectation::new', optional=True)    # (a private convenience constructor: absent when the struct literal is written out)
     for p in (symex.Interp(F).run(lb) if lb is not None else []):
         d = dict(strip(p.outcome[1])[4])
